@@ -93,23 +93,43 @@ theorem fireRetransmit_piggy (s : State) (remote : Remote) (mid : Nat) :
     · exact (tokenDispatchError_Quiet (dropBacklog (dropExchange s remote mid) remote) remote
         .conRetransmitsExceeded).pg
 
+/-- after the flush no opportunity is left under that key -/
+theorem fireEmptyAck_nokey (s : State) (remote : Remote) (token : Token) :
+    ∀ x ∈ (fireEmptyAck s remote token).1.piggy, (x.remote == remote && x.token == token) = false := by
+  unfold fireEmptyAck
+  split
+  · rename_i hn
+    intro x hx
+    have := List.find?_eq_none.mp hn x hx
+    simpa using this
+  · intro x hx
+    unfold sendBare at hx
+    rw [piggy_sendInitially] at hx
+    have hf := (List.mem_filter.mp hx).2
+    cases hb : (x.remote == remote && x.token == token)
+    · rfl
+    · rw [hb] at hf; cases hf
+
 theorem processRequest_PInv {s : State} (h : PInv s) (remote : Remote) (w : Wire) :
     PInv (processRequest s remote w).1 := by
+  have h0 : PInv (fireEmptyAck s remote w.token).1 := PInv_of_sublist h (fireEmptyAck_PSub s remote w.token)
+  have hk := fireEmptyAck_nokey s remote w.token
   unfold processRequest
   simp only
+  generalize (fireEmptyAck s remote w.token).1 = s0 at h0 hk
   split
   · refine PInv_of_piggy ?_ (tokenProcessRequest_Quiet _ remote w).pg
-    show ((s.piggy.filter (fun p : Piggy => !(p.remote == remote && p.token == w.token)) ++
-        [({ remote, token := w.token, mid := w.mid, fireAt := s.now + s.cfg.emptyAckDelay } : Piggy)]).map
+    show ((s0.piggy ++
+        [({ remote, token := w.token, mid := w.mid, fireAt := s0.now + s0.cfg.emptyAckDelay } : Piggy)]).map
           pkey).Nodup
     simp only [List.map_append, List.map_cons, List.map_nil]
-    refine nodup_snoc (List.Nodup.sublist (List.filter_sublist.map pkey) h) ?_
+    refine nodup_snoc h0 ?_
     intro hin
-    obtain ⟨x, hx, hk⟩ := List.mem_map.mp hin
-    have hf := (List.mem_filter.mp hx).2
-    simp only [pkey, Prod.mk.injEq] at hk
-    simp [hk.1, hk.2] at hf
-  · exact PInv_of_piggy h (tokenProcessRequest_Quiet s remote w).pg
+    obtain ⟨x, hx, hk'⟩ := List.mem_map.mp hin
+    have hf := hk x hx
+    simp only [pkey, Prod.mk.injEq] at hk'
+    simp [hk'.1, hk'.2] at hf
+  · exact PInv_of_piggy h0 (tokenProcessRequest_Quiet s0 remote w).pg
 
 theorem recvCode_PInv {s : State} (h : PInv s) (remote : Remote) (mcl : Bool) (w : Wire) :
     PInv (recvCode s remote mcl w).1 := by
@@ -146,7 +166,7 @@ theorem recv_PInv {s : State} (hq : QInv s) (h : PInv s) (remote : Remote) (mcl 
     · exact h
   · dsimp only
     apply recvCode_PInv
-    generalize hs0 : (if isRequest w.code = true then
+    generalize hs0 : (if dedupable w = true then
         ({ s with recent := s.recent ++ [(⟨remote, w.mid, none, s.now + s.cfg.exchangeLifetime⟩ : Recent)] } : State)
         else s) = s0
     have e0 : s0.piggy = s.piggy := by
